@@ -156,19 +156,19 @@ func verifChid(label string) datatransfer.ChannelID {
 // ---- EventsHandler double -----------------------------------------------------
 
 const (
-	evOpened      = "OnChannelOpened"
-	evResponse    = "OnResponseReceived"
-	evReceived    = "OnDataReceived"
-	evQueued      = "OnDataQueued"
-	evSent        = "OnDataSent"
-	evInitiated   = "OnTransferInitiated"
-	evRequest     = "OnRequestReceived"
-	evCompleted   = "OnChannelCompleted"
-	evCancelled   = "OnRequestCancelled"
-	evDisconnect  = "OnRequestDisconnected"
-	evSendErr     = "OnSendDataError"
-	evRecvErr     = "OnReceiveDataError"
-	evCtxAugment  = "OnContextAugment"
+	evOpened     = "OnChannelOpened"
+	evResponse   = "OnResponseReceived"
+	evReceived   = "OnDataReceived"
+	evQueued     = "OnDataQueued"
+	evSent       = "OnDataSent"
+	evInitiated  = "OnTransferInitiated"
+	evRequest    = "OnRequestReceived"
+	evCompleted  = "OnChannelCompleted"
+	evCancelled  = "OnRequestCancelled"
+	evDisconnect = "OnRequestDisconnected"
+	evSendErr    = "OnSendDataError"
+	evRecvErr    = "OnReceiveDataError"
+	evCtxAugment = "OnContextAugment"
 )
 
 type verifEvCall struct {
